@@ -85,7 +85,7 @@ def analyze(scenario, log):
     end_events = []                    # (pid, time, log index)
     cur_li = [0]
     csigs = []                         # (cond, time, log index, [(waiter pid, predicate true?, determinable)])
-    fwd_expect = []                    # (cond, waiter, time, log index): a forwarded signal must wake this single waiter
+    fwd_expect = []                    # (cond, waiter, time, log index, what): a forwarded signal must wake this waiter
     flags_now = collections.defaultdict(int)
     dequeued = set()
     prev_call = [None]                 # pid whose call line was the previous log line (an immediate return follows directly)
@@ -95,16 +95,40 @@ def analyze(scenario, log):
     capped = [False]
 
 
-    def on_res_freed(r, t):
-        # conditions observing this resource's guard are signalled; with exactly ONE waiter whose (flag) predicate is true
-        # the known front-only behaviour of forwarded signals cannot matter: that waiter must be resumed in this instant
+    def cond_pred(qcmd):
+        """(predicate true?, determinable from the log?) of a waiter's `cwait c kind a b`, in the state the log has reached"""
+        kd, xa, xb = int(qcmd[2]), int(qcmd[3]), int(qcmd[4])
+        if kd == 0:
+            return flags_now[xa] != 0, True
+        if kd == 1 and xa < len(holder):
+            return holder[xa] is None, True
+        if kd == 2 and xa < len(pool_held):
+            busy = any(oc[2][0] in ("pacq", "ppre") and int(oc[2][1]) == xa for oc in open_call.values())
+            if pool_unknown[xa] or busy:
+                return False, False
+            return objs["pool"][xa] - sum(pool_held[xa].values()) >= xb, True
+        if kd == 3 and xa < len(buf_put):
+            busy = any(oc[2][0] in ("bget", "bput") and int(oc[2][1]) == xa for oc in open_call.values())
+            if buf_unknown[xa] or busy:
+                return False, False
+            return buf_put[xa] - buf_got[xa] >= xb, True
+        if kd == 4 and xa < len(oq_puts):
+            return len(oq_puts[xa]) - len(oq_gets[xa]) >= xb, True
+        return False, False
+
+    def guard_signalled(kind, idx, which, t, what):
+        # C13: every condition observing this guard is signalled (cmb_condition_signal semantics): EVERY waiter whose predicate is
+        # true now (and determinable from the log) is woken in this instant, wherever it stands in the condition's list
         for (c, kd, ix, wh) in objs["subs"]:
-            if kd == 0 and ix == r:
-                ws = [(q, oc) for q, oc in open_call.items() if oc[2][0] == "cwait" and int(oc[2][1]) == c and q not in dequeued]
-                if len(ws) == 1:
-                    q, oc = ws[0]
-                    if int(oc[2][2]) == 0 and flags_now[int(oc[2][3])] != 0:
-                        fwd_expect.append((c, q, t, cur_li[0], r))
+            if kd == kind and ix == idx and (wh == which or kind in (0, 1)):
+                for q, oc in open_call.items():
+                    if oc[2][0] == "cwait" and int(oc[2][1]) == c and q not in dequeued and q not in ended:
+                        sat, known = cond_pred(oc[2])
+                        if known and sat:
+                            fwd_expect.append((c, q, t, cur_li[0], what))
+
+    def on_res_freed(r, t):
+        guard_signalled(0, r, 0, t, "resource %d was released" % r)
 
     def proc_ended(q, t, how):
         if q in ended:
@@ -519,6 +543,17 @@ def analyze(scenario, log):
                         bad("C12", "priority queue %d: position of handle %d reported as %d at t=%d; by priority (as last changed), then "
                             "order of arrival, it is %d (queue, best first: %s)" %
                             (q, h, val, t, want, [(hh, pq_entries[q][hh][1]) for hh in order]))
+            # ---------------- C13: calls that signal a guard (state as left by the call) ----------------
+            if op == "prel" and a[0] < len(pool_held):
+                guard_signalled(1, a[0], 0, t, "units of pool %d were released" % a[0])
+            if op == "oput" and val == 0 and a[0] < len(oq_puts):
+                guard_signalled(3, a[0], 0, t, "an object was put into object queue %d" % a[0])
+            if op == "oget" and val == 0 and a[0] < len(oq_puts):
+                guard_signalled(3, a[0], 1, t, "an object was taken from object queue %d" % a[0])
+            if op == "bput" and val == 0 and a[0] < len(buf_put):
+                guard_signalled(2, a[0], 0, t, "buffer %d was filled" % a[0])
+            if op == "bget" and val == 0 and a[0] < len(buf_put):
+                guard_signalled(2, a[0], 1, t, "buffer %d was drained" % a[0])
             # ---------------- recording ----------------
             if op == "rstart":
                 rec.setdefault((a[0], a[1]), []).append([t, None])
@@ -652,8 +687,6 @@ def analyze(scenario, log):
     per_instant = collections.Counter((c, t) for (c, t, ci, ri, ws, v) in csigs)
     observed = {c for (c, kd, ix, wh) in objs["subs"]}
     for (c, t, ci, ri, ws, v) in csigs:
-        if c in observed:
-            continue      # forwarded signals may have granted a waiter already (its wake-up is pending, invisible in the log)
         for (q, sat, known) in ws:
             if not known:
                 continue
@@ -663,20 +696,24 @@ def analyze(scenario, log):
                 # a waiter that is stopped in the signal's instant, before its wake-up runs, never returns
                 ended_first = any(eq == q and et == t and eli > ci and (first is None or eli < first[0])
                                   for (eq, et, eli) in end_events)
-                if (first is None or first[1] != t) and not ended_first:
+                if (first is None or first[1] != t) and not ended_first and not (first is None and capped[0]):
                     bad("C13", "condition %d was signalled at t=%d while process %d was waiting with a true predicate, but it was not "
                         "resumed at that time" % (c, t, q))
             elif per_instant[(c, t)] == 1 and c not in observed:
+                # (a forwarded signal of the same instant may have woken the waiter while its predicate was true)
                 if first is not None and first[1] == t and first[2] == 0:
                     bad("C13", "condition %d was signalled at t=%d; process %d's predicate was false but it was resumed with SUCCESS" % (c, t, q))
-        if all(k for (_, _, k) in ws) and ws and per_instant[(c, t)] == 1:
+        if all(k for (_, _, k) in ws) and ws and per_instant[(c, t)] == 1 and c not in observed:
+            # (waiters already woken by a forwarded signal of this instant are off the list but still inside their call)
             if (v == 1) != any(sat for (_, sat, _) in ws):
                 bad("C13", "condition %d signal at t=%d returned %d but %d waiters had a true predicate" % (c, t, v, sum(1 for x in ws if x[1])))
-    for (c, q, t, li0, r) in fwd_expect:
+    for (c, q, t, li0, what) in fwd_expect:
         nxt = [x for x in rets[q] if x[0] > li0]
-        if not nxt or nxt[0][1] != t:
-            bad("C13", "resource %d was released at t=%d; condition %d observes it and its only waiter, process %d, had a true "
-                "predicate, but it was not resumed at that time (the forwarded signal did not reach the condition)" % (r, t, c, q))
+        ended_first = any(eq == q and et == t and eli > li0 and (not nxt or eli < nxt[0][0]) for (eq, et, eli) in end_events)
+        if (not nxt or nxt[0][1] != t) and not ended_first and not (not nxt and capped[0]):
+            bad("C13", "%s at t=%d; condition %d observes that guard and process %d was waiting on it with a true predicate, but it was "
+                "not resumed at that time (a signal forwarded from an observed guard must evaluate every waiter of the condition)"
+                % (what, t, c, q))
     # ---------------- C06: full service order on resources without barging (priority, then entry time, then process) ----------------
     barged = set()
     for g in res_waits:
